@@ -169,3 +169,52 @@ def normal_form_problems(m, top=True) -> list[str]:
             probs += normal_form_problems(c, top=False)
         return probs
     return [f"unknown-class-{type(m).__name__}"]
+
+
+# --------------------------------------------------------------------------
+# the case family shared by C07 / C12 / C15: two operands, a set of variable names
+ALL_VARS = sorted(M.STR_VARS) + ["python_version", "python_full_version", "platform_release", "extra"]
+
+
+@st.composite
+def family_case(draw, max_leaves=3):
+    a = draw(operand(max_leaves=max_leaves))
+    b = draw(operand(max_leaves=max_leaves))
+    mentioned = sorted({x["var"] for x in expr_atoms(a) + expr_atoms(b)}) or ["os_name"]
+    k = draw(st.sampled_from([1, 1, 2, 2, 3]))
+    names = draw(st.lists(st.sampled_from(mentioned + ["os_name", "extra"]), min_size=1, max_size=k, unique=True))
+    return {"a": a, "b": b, "names": names}
+
+
+def produced(case):
+    """Every marker the public operations produce for a case: (label, marker, recipe).
+    recipe is ("expr", Expr) when a shadow exists, else ("derived", base_label, op, args)."""
+    A, B = dep_eval(case["a"]), dep_eval(case["b"])
+    base = [("a", A, case["a"]), ("b", B, case["b"]), ("a&b", A & B, ["and", case["a"], case["b"]]), ("a|b", A | B, ["or", case["a"], case["b"]])]
+    out = [(lab, m, ("expr", e)) for lab, m, e in base]
+    names = case.get("names") or []
+    for lab, m, e in base:
+        if names:
+            out.append((f"{lab}.only({','.join(names)})", m.only(*names), ("only", e, names)))
+            out.append((f"{lab}.exclude({names[0]})", m.exclude(names[0]), ("exclude", e, names[0])))
+        out.append((f"{lab}.without_extras()", m.without_extras(), ("exclude", e, "extra")))
+    return out
+
+
+def case_shrinks(case):
+    for key in ("a", "b"):
+        for s in expr_shrinks(case[key]):
+            yield {**case, key: s}
+    if len(case.get("names", [])) > 1:
+        for i in range(len(case["names"])):
+            yield {**case, "names": case["names"][:i] + case["names"][i + 1 :]}
+
+
+import re as _re
+
+_LIST_ATOM = _re.compile(r"python_version (not in|in) [\"']([^\"']*)[\"']")
+
+
+def text_list_atoms(text):
+    """in/not-in list atoms occurring in a rendered marker (for the M4 row predicate)."""
+    return [{"var": "python_version", "op": op, "val": val, "rev": False} for op, val in _LIST_ATOM.findall(text)]
